@@ -10,6 +10,7 @@ import Mistletoe.Props.C03
 import Mistletoe.Props.C09
 import Mistletoe.Props.C19
 import Mistletoe.Props.C10_Reflow
+import Mistletoe.Props.C06
 open Lean Mistletoe
 
 /-- op "c14.hyps": {"lines": [String]} → the hypotheses of `C14_prose_text` evaluated on these lines -/
@@ -108,6 +109,14 @@ def c10Reflow (j : Json) : Except String Json := do
     pure (Json.mkObj [("ok", Json.bool ok), ("text", Driver.str (Reflow.textOf p rest)),
                       ("expected", Driver.str (Reflow.textOf (Reflow.reflowG L p) (rest.map (Reflow.reflowG L))))])
 
+/-- op "c06.spec": {"text": s} → the hypotheses of `C06_emphasis_is_spec_partial` (`plain`, `stdWs`) and the emphasis spans
+    (start, text start, text end, stop, strong) the Lean specification of CommonMark 6.2 computes for `s` -/
+def c06Spec (j : Json) : Except String Json := do
+  let s ← Driver.getStr j "text"
+  let spans := Spec.Emphasis.spans s
+  pure (Json.mkObj [("plain", Json.bool (Spec.Emphasis.plain s)), ("stdWs", Json.bool (EmphRefine.stdWs s)),
+    ("spans", Json.arr (spans.map (fun (a, b, c, d, st) => Json.arr #[Driver.nat a, Driver.nat b, Driver.nat c, Driver.nat d, Json.bool st])).toArray)])
+
 def dispatch (op : String) (j : Json) : Except String Json :=
   match op with
   | "c14.hyps" => c14Hyps j
@@ -115,6 +124,7 @@ def dispatch (op : String) (j : Json) : Except String Json :=
   | "c09.fragment" => c09Fragment j
   | "c19.outline" => c19Outline j
   | "c10.reflow" => c10Reflow j
+  | "c06.spec" => c06Spec j
   | "ping" => pure (Json.str "pong")
   | _ => throw s!"unknown op {op}"
 
